@@ -53,9 +53,10 @@ const (
 	opIdleLong        // idle long enough to cool down completely
 	opSaturate        // saturating demand for 2*period+3 s, then the last second is judged
 	opPatient         // steady single-token demand for period+2 s: must not be starved
+	opIdleHuge        // idle just over 2^32 ms (49.7 days): a cold start like any other
 )
 
-var opNames = []string{"burst", "steady(1s)", "idle(1s)", "idle(long)", "saturate(2*period+3s)", "patient(period+2s)"}
+var opNames = []string{"burst", "steady(1s)", "idle(1s)", "idle(long)", "saturate(2*period+3s)", "patient(period+2s)", "idle(2^32ms+704)"}
 
 const T0 = int64(1700000000000)
 
@@ -156,8 +157,16 @@ func (s *scen) Apply(i int) (string, string) {
 	case opIdleLong:
 		s.tick(s.coolTime())
 		return "", ""
+	case opIdleHuge:
+		s.tick(1<<32 + 704)
+		return "", ""
 	case opBurst:
 		cold := s.fresh || s.now-s.idleSince >= s.coolTime()
+		// the tokens stored when the idle period ends: exactly on the warning line is the known permanent state
+		onLine := ""
+		if w, ok := flow.VerifWarmUpOf(flow.VerifControllers("a")[0].TC); ok && w.Stored == int64(w.WarningToken) {
+			onLine = fmt.Sprintf(" [stored tokens sit exactly on the warning line %d]", w.WarningToken)
+		}
 		k := int(math.Ceil(s.cfg.T)) + 3
 		n := 0
 		for j := 0; j < k; j++ {
@@ -172,7 +181,7 @@ func (s *scen) Apply(i int) (string, string) {
 		if cold && s.cfg.T > 0 {
 			lim := int(math.Ceil(s.cfg.T/s.cfg.cold())) + 1
 			if n > lim {
-				return fmt.Sprint(n), fmt.Sprintf("t=+%dms: %d requests admitted at once from a cold start, more than about threshold/coldFactor = %v/%v (allowed <= %d)", s.now-T0, n, s.cfg.T, s.cfg.cold(), lim)
+				return fmt.Sprint(n), fmt.Sprintf("t=+%dms: %d requests admitted at once from a cold start, more than about threshold/coldFactor = %v/%v (allowed <= %d)%s", s.now-T0, n, s.cfg.T, s.cfg.cold(), lim, onLine)
 			}
 		}
 		return fmt.Sprintf("burst=%d", n), ""
@@ -284,6 +293,9 @@ func signature(cfg Config, what string) string {
 	case strings.Contains(what, "admitted although"):
 		return "C11:warmup:rate-above-threshold"
 	case strings.Contains(what, "from a cold start"):
+		if !strings.Contains(what, "exactly on the warning line") {
+			return "C11:warmup:cold-start-too-high:tokens-off-the-warning-line"
+		}
 		return "C11:warmup:cold-start-too-high"
 	case strings.Contains(what, "saturating demand"):
 		if cfg.T < cfg.cold() {
